@@ -58,6 +58,7 @@ package perio
 //@   loop range(usars):
 //@     modifies usars[_]
 //@     invariant [n]    len(rpts) == idx
+//@     invariant [ownbuf] idx > 0 ==> !before(allocated(rpts))
 //@     invariant [flag] forall j int :: 0 <= j && j < idx ==> usars[j].USARTrigger.Flags & report.USAR_TRIG_PERIO != 0
 //@   at call newTicker:
 //@     assume [A-EVT] e.period > 0
@@ -74,6 +75,7 @@ package perio
 //@   at call NotifySessReport:
 //@     assert [seid]  arg0.SEID == seid && len(arg0.Reports) == len(usars)
 //@     assert [perio] forall j int :: 0 <= j && j < len(usars) ==> usars[j].USARTrigger.Flags & report.USAR_TRIG_PERIO != 0
+//@     assert [ownbuf] len(usars) > 0 ==> !before(allocated(arg0.Reports))
 
 // Goroutine confinement (C17): the registration table of the periodic-report server belongs to its own goroutine;
 // producers (Gtp5g.CreateURR / RemoveURR on the event loop, the ticker goroutines) reach it through evtCh only.
